@@ -185,6 +185,12 @@ class Check:
             # a proof-level claim needs every obligation discharged; with listed
             # findings open the run is reported at level "other"
             level = "other"
+        try:
+            from .q import Fn as _Fn
+
+            self.analysed["functions_consulted"] = len(_Fn.consulted)
+        except Exception:
+            pass
         cov = {
             "explanation": (
                 "Static analysis of the current working tree under %s: every rule below is "
